@@ -50,7 +50,7 @@ def main(pid, tier, replay_path=None):
             if not vlib.tlc_ok(out):
                 raise vlib.Inconclusive('exhaustive check of Adapters.tla failed:\n' + out[-1500:])
             st = vlib.tlc_stats(out)
-            behs = [json.load(open(replay_path))['behaviour']] if replay_path else gen(sc, 2400 if tier == 'quick' else 60000, seed)
+            behs = [json.load(open(replay_path))['behaviour']] if replay_path else gen(sc, 2400 if tier == 'quick' else 250000, seed)
             res = {}
             procs, size = [], (len(behs) + 7) // 8
             for c in range(8):
